@@ -82,13 +82,13 @@ func mkPool(get func(string) string, metrics engine.Metrics) (*poolRun, error) {
 		Provider:   p,
 		Aggregator: ag,
 		NewGun: func() (core.Gun, error) {
-			return &gun{r: rec, shot: shot, report: phout, ids: ids}, nil
+			return &gun{r: rec, shot: shot, report: phout, ids: ids, panicAt: atoi(get("panic"))}, nil
 		},
 		RPSPerInstance: get("shared") == "0",
 		NewRPSSchedule: func() (core.Schedule, error) {
-			return &sched{r: rec, inner: mkSchedule(schedKind, tokens), past: past, late: late}, nil
+			return &sched{r: rec, inner: mkSchedule(schedKind, tokens), past: past, late: late, shared: get("shared") != "0"}, nil
 		},
-		StartupSchedule: mkStartup(get("start"), inst),
+		StartupSchedule: &startSched{r: rec, inner: mkStartup(get("start"), inst)},
 		DiscardOverflow: get("discard") == "1",
 	}
 	return pr, nil
@@ -133,14 +133,18 @@ func runReal(input string) string {
 		c = &ctl{r: rec, wake: make(chan struct{}, 1), parked: map[int]chan struct{}{}, resting: map[int]bool{},
 			started: func() int { return int(metrics.InstanceStart.Get()) }, stop: make(chan struct{}),
 			wait: 300 * time.Microsecond, firstWait: 20 * time.Millisecond, last: -1,
-			fine: m["fine"] == "1", pending: map[int][]string{}}
+			fine: m["fine"] == "1", pending: map[int][]string{},
+			sctl: m["sctl"] == "1" && (m["start"] == "" || m["start"] == "once"), finished: func() int { return int(metrics.InstanceFinish.Get()) }}
+		if c.sctl {
+			c.last = -2
+		}
 		parts := strings.Split(spec, ":")
 		systematic := func() {
 			// systematic modes: operations are instantaneous (once profile, no shot time), so a long patience costs
 			// nothing and keeps the enumeration deterministic on a loaded machine
 			c.wait = 400 * time.Millisecond
 			c.firstWait = time.Second
-			if m["start"] == "" || m["start"] == "once" {
+			if (m["start"] == "" || m["start"] == "once") && !c.sctl {
 				c.first = cap
 			}
 		}
@@ -178,7 +182,7 @@ func runReal(input string) string {
 				// nothing sleeps: a long patience costs nothing and keeps "one instance runs at a time" true
 				c.wait = 400 * time.Millisecond
 				c.firstWait = time.Second
-				if m["start"] == "" || m["start"] == "once" {
+				if (m["start"] == "" || m["start"] == "once") && !c.sctl {
 					c.first = cap
 				}
 			}
@@ -193,6 +197,15 @@ func runReal(input string) string {
 	eng := engine.New(zap.NewNop(), metrics, conf)
 	ctx, cancel := context.WithTimeout(context.Background(), 15*time.Second)
 	defer cancel()
+	if c != nil {
+		// controlled runs use instantaneous profiles of a few tokens: (tokens + instances) iterations of at most 7 logged
+		// operations each is all a pool can do
+		rec.maxEvs = 64*(atoi(m["tokens"])*prs[0].cap+prs[0].cap+4) + 256
+		rec.onRunaway = func() {
+			c.halt()
+			cancel()
+		}
+	}
 	err := eng.Run(ctx)
 	if c != nil {
 		c.halt()
@@ -202,6 +215,11 @@ func runReal(input string) string {
 	if err != nil {
 		res = "err:" + strings.ReplaceAll(drv.Clean(err.Error()), " ", "_")
 	}
+	rec.mu.Lock()
+	if rec.runaway {
+		res = "runaway"
+	}
+	rec.mu.Unlock()
 	b := func(x bool) int {
 		if x {
 			return 1
@@ -243,8 +261,8 @@ func dfs(base string, maxRuns int) ([]string, bool) {
 		}
 		in := base + " ctl=path:" + sb.String()
 		obs := execute(in)
-		if !strings.HasPrefix(obs, "res=") {
-			// crash or hang: report it for this input and stop enumerating this configuration
+		if !strings.HasPrefix(obs, "res=ok ") {
+			// crash, hang, abnormal end or runaway: report it for this input and stop enumerating this configuration
 			cacheMu.Lock()
 			cache[in] = obs
 			cacheMu.Unlock()
@@ -372,6 +390,9 @@ func gen(r *rand.Rand, tier string) []string {
 		if r.Intn(2) == 0 {
 			extra += fmt.Sprintf(" ctl=rand:%d:%d", r.Intn(1000000), r.Intn(3))
 		}
+		if r.Intn(6) == 0 {
+			extra += " panic=" + itoa(1+r.Intn(6)) // fault plan: the k-th Shoot of the pool panics
+		}
 		out = append(out, line(1+r.Intn(12), r.Intn(2), r.Intn(30), pick(r, -1, r.Intn(40)), r.Intn(2), r.Intn(4), pick(r, 0, 20, 100), pick(r, kinds...), extra))
 	}
 
@@ -401,7 +422,33 @@ func gen(r *rand.Rand, tier string) []string {
 		inst := 2 + r.Intn(4)
 		tokens := r.Intn(7)
 		extra := fmt.Sprintf("prov=%s aggr=%s ctl=rand:%d:%d", pick(r, "mock", "mock", "json", "num"), pick(r, aggrs...), r.Intn(1000000), r.Intn(3))
+		if r.Intn(2) == 0 {
+			extra += " sctl=1" // the goroutine that starts the instances takes part in the controlled interleaving
+		}
+		if r.Intn(10) == 0 {
+			extra += " panic=" + itoa(1+r.Intn(4))
+		}
 		out = append(out, line(inst, r.Intn(2), tokens, pick(r, -1, r.Intn(8), tokens, tokens+1), r.Intn(2), pick(r, 0, 0, 1, 2), 0, pick(r, "once", "once", "comp"), extra))
+	}
+
+	// 4f. the same with scheduling points INSIDE the schedule's Next / Left (instrumented worker, instr.go): an instance
+	//     can be parked between the atomic operations of one call while the others go on
+	n = 260
+	if thorough {
+		n = 30000
+	}
+	for i := 0; i < n; i++ {
+		inst := 2 + r.Intn(5)
+		tokens := r.Intn(5)
+		shared := 1
+		if r.Intn(3) == 0 {
+			shared = 0
+		}
+		extra := fmt.Sprintf("prov=%s aggr=%s ctl=rand:%d:%d fine=1", pick(r, "mock", "mock", "mock", "json", "num"), pick(r, aggrs...), r.Intn(1000000), r.Intn(3))
+		if r.Intn(3) == 0 {
+			extra += " sctl=1"
+		}
+		out = append(out, line(inst, shared, tokens, pick(r, -1, -1, r.Intn(8), tokens, tokens+1), r.Intn(2), pick(r, 0, 0, 1, 2), 0, "once", extra))
 	}
 
 	// 4b. engines with two or three pools that share the Request / Response counters
@@ -451,6 +498,23 @@ func gen(r *rand.Rand, tier string) []string {
 			}
 		}
 	}
+	// 5f. … and of the interleavings at the granularity of the schedule's atomic operations
+	for _, a := range []int{-1, 1, 2} {
+		bases = append(bases, line(2, 1, 1, a, 0, 0, 0, "once", "fine=1"))
+	}
+	bases = append(bases, line(2, 0, 1, 1, 1, 1, 0, "once", "fine=1"))
+	// 5s. … and with the goroutine that starts the instances as one more participant (an instance may run, finish the
+	//     profile or run out of ammo before the next one exists; the start may be cut)
+	bases = append(bases, line(2, 1, 1, 1, 0, 0, 0, "once", "sctl=1"), line(2, 0, 1, 1, 0, 0, 0, "once", "sctl=1"),
+		line(3, 1, 0, -1, 0, 0, 0, "once", "sctl=1"), line(3, 1, 1, 0, 0, 0, 0, "once", "sctl=1"), line(2, 1, 1, -1, 1, 1, 0, "once", "sctl=1"))
+	if thorough {
+		bases = append(bases, line(3, 1, 1, 1, 0, 0, 0, "once", "sctl=1"), line(3, 0, 1, 2, 0, 0, 0, "once", "sctl=1"),
+			line(2, 1, 1, 1, 0, 0, 0, "once", "sctl=1 fine=1"), line(2, 1, 2, -1, 0, 0, 0, "once", "sctl=1"))
+	}
+	if thorough {
+		bases = append(bases, line(2, 0, 1, -1, 0, 0, 0, "once", "fine=1"), line(2, 1, 0, -1, 0, 0, 0, "once", "fine=1"),
+			line(2, 1, 2, -1, 1, 2, 0, "once", "fine=1"), line(3, 1, 1, -1, 0, 0, 0, "once", "fine=1"), line(3, 1, 1, 2, 0, 0, 0, "once", "fine=1"))
+	}
 	out = append(out, dfsAll(bases, maxRuns)...)
 
 	// 6. preemption-bounded enumeration (every schedule that runs each instance on until it ends, except for at most
@@ -469,12 +533,20 @@ func gen(r *rand.Rand, tier string) []string {
 				line(3, shared, 4, -1, 1, 3, 0, "comp", "prov=jsonpass aggr=phout"))
 		}
 	} else {
-		pbBases = append(pbBases, line(3, 1, 2, -1, 0, 0, 0, "once", ""), line(3, 0, 2, 3, 1, 2, 0, "once", ""))
+		pbBases = append(pbBases, line(3, 1, 2, -1, 0, 0, 0, "once", ""), line(3, 0, 2, 3, 1, 2, 0, "once", ""),
+			line(3, 1, 1, -1, 0, 0, 0, "once", "fine=1"), line(3, 1, 2, 2, 0, 0, 0, "once", "sctl=1"))
+	}
+	if thorough {
+		pbBases = append(pbBases, line(3, 1, 2, -1, 0, 0, 0, "once", "fine=1"), line(4, 1, 1, 3, 0, 0, 0, "once", "fine=1"),
+			line(3, 0, 2, 3, 1, 2, 0, "once", "fine=1"))
 	}
 	for _, b := range pbBases {
 		base := execute(b + " ctl=pb:")
 		steps := len(drv.KV(base)["br"])/2 + 6
 		others := atoi(drv.KV(b)["inst"]) - 1
+		if drv.KV(b)["sctl"] == "1" {
+			others++
+		}
 		out = append(out, b+" ctl=pb:")
 		for s1 := 0; s1 < steps; s1++ {
 			for k1 := 0; k1 < others; k1++ {
@@ -549,11 +621,19 @@ func main() {
 			case strings.HasPrefix(m["start"], "ramp"):
 				how = "ramp"
 			}
+			if m["fine"] == "1" {
+				how += "+fine"
+			}
+			if m["sctl"] == "1" {
+				how += "+starter"
+			}
 			if p := m["prov"]; (p != "" && p != "mock") || m["aggr"] == "phout" {
 				how += "+real"
 			}
 			what := "fired"
 			switch {
+			case m["panic"] != "" && !strings.HasPrefix(obs, "res=ok"):
+				what = "gun-panic"
 			case strings.Contains(o["log"], "x"):
 				what = "unfired"
 			case o["started"] != o["cap"]:
